@@ -98,6 +98,12 @@ CHECKS = {
              "call must raise; the unfaulted base and the boundary value 0 must be accepted and stored unaltered. The fault space per base is "
              "enumerated completely; the bases are sampled.",
         design='5/C19', technique='fault injection with a raise/no-raise monitor at the constructor, loader and query boundary'),
+    'C20': dict(
+        text="Offline history checker: every result observed in random call histories (80-240 calls, repeats, interleavings) over a pool of shared "
+             "networks, circuits, documents, keep lists, value dictionaries, input dictionaries and arrays is compared with the result of the same "
+             "(operation, description) computed in two fresh interpreters in opposite order; deep fingerprints of all argument objects before/after "
+             "each call and of every mutable default / module-level table of the repository modules along the history.",
+        design='5/C20', technique='recorded call histories checked against fresh-interpreter baselines + before/after fingerprint sentinels'),
 }
 
 NOT_YET = "check not built yet in this round (work in progress; see DESIGN.md section 5)"
